@@ -306,46 +306,61 @@ NULL_OK = {'state', 'rng_state', 'gen_state', 'file', 'stack', 'val_state'}
 class _Abort(Exception):
     pass
 
+def discover_one(item):
+    """the library calls one accepted composite case makes: [(name, pointer flags, number of arguments, number of null arguments)] or None"""
+    f, c = item
+    P = prototypes()
+    L = common.lib('rel')
+    calls = []
+    def rec(name, args):
+        if name in P:
+            calls.append((name, [isinstance(a, (vf.Buf, bytes, bytearray)) for a in args], len(args), sum(a is None for a in args)))
+        return args
+    L.hook = rec
+    try:
+        res = common.run_fn(L, f, c)
+    except Exception:
+        res = None
+    finally:
+        L.hook = None
+    if not res or res.get('ret') != 0:
+        return None
+    return calls
+
 def call_sites():
-    """one accepted composite case per reachable (library function, pointer argument): -> [(composite fname, case, call name, occurrence, arg index, arg name)]"""
+    """one accepted composite case per reachable (library function, pointer argument): -> ([(composite fname, case, call name, occurrence, arg index,
+    arg name)], [crashed (fname, case, result)]).  The composites are executed in forked workers: a composite that crashes under the sanitizer
+    runtime is an observation about that case, not the end of the sub-exploration"""
     P = prototypes()
     best = {}
-    L = common.lib('rel')
     cases = [(f, c) for f, c in corpora.all_cases('quick') if getattr(cat.CAT.get(f), 'impl', None) is not None and not getattr(cat.CAT[f], 'nondet', False)]
     per = {}
+    items = []
     for f, c in cases:
-        per.setdefault(f, [])
-        if len(per[f]) < 6:
-            per[f].append(c)
-    for f, cs in sorted(per.items()):
-        for c in cs:
-            calls = []
-            def rec(name, args):
-                if name in P:
-                    calls.append((name, [isinstance(a, (vf.Buf, bytes, bytearray)) for a in args], len(args), sum(a is None for a in args)))
-                return args
-            L.hook = rec
-            try:
-                res = common.run_fn(L, f, c)
-            except Exception:
-                res = None
-            finally:
-                L.hook = None
-            if not res or res.get('ret') != 0:
+        per.setdefault(f, 0)
+        if per[f] < 6:
+            per[f] += 1; items.append((f, c))
+    items.sort(key=lambda it: it[0])
+    res = vf.pmap(discover_one, items, case_timeout=300)
+    crashed = []
+    for (f, c), calls in zip(items, res):
+        if isinstance(calls, dict):
+            crashed.append((f, c, calls)); continue
+        if not calls:
+            continue
+        occ = {}
+        for name, flags, n, nnull in calls:
+            k = occ[name] = occ.get(name, 0) + 1
+            proto = P[name]
+            if n != len(proto):
                 continue
-            occ = {}
-            for name, flags, n, nnull in calls:
-                k = occ[name] = occ.get(name, 0) + 1
-                proto = P[name]
-                if n != len(proto):
-                    continue
-                for i, isp in enumerate(flags):
-                    if isp and proto[i][1] and proto[i][0] not in NULL_OK:
-                        cur = best.get((name, i))
-                        if cur is None or nnull < cur[0]:       # a call with fewer null arguments is the better base (size queries pass nulls)
-                            best[(name, i)] = (nnull, (f, c, name, k, i, proto[i][0]))
+            for i, isp in enumerate(flags):
+                if isp and proto[i][1] and proto[i][0] not in NULL_OK:
+                    cur = best.get((name, i))
+                    if cur is None or nnull < cur[0]:       # a call with fewer null arguments is the better base (size queries pass nulls)
+                        best[(name, i)] = (nnull, (f, c, name, k, i, proto[i][0]))
     out = [v[1] for k, v in sorted(best.items())]
-    return out
+    return out, crashed
 
 def callnull_case(item):
     f, c, cname, occ, ai, aname = item
@@ -497,7 +512,10 @@ def sub(tier, what, out):
             add('null:%s:%s' % (f, c['_null'][0]), rec, '%s: %s  [%s]' % (f, r, cat.short(c)))
     result['parts']['null_pointer_sweep'] = dict(states=len(nc), transitions=len(nc), traces_validated_against_impl=len(nc), evaluations=len(nc), functions=len(set(f for f, _ in nc)))
     # 2c. the same one level down: every err_t function reached through a composite, each pointer argument nulled at the call itself
-    cs_ = call_sites()
+    cs_, crashed_ = call_sites()
+    for f, c, r in crashed_:
+        k, m = C07.classify(r.get('stderr', '') or r.get('harness_error', '') or r.get('crash', ''))
+        add('composite:%s:%s' % (k, f), {'cfg': CFG, 'kind': 'discover', 'fn': f, 'case': cat.enc_case(c)}, '%s (accepted corpus case, executed to list its library calls): %s [%s]' % (f, m, cat.short(c)))
     res = vf.pmap(callnull_case, cs_, case_timeout=300)
     for item, r in zip(cs_, res):
         f, c, cname, occ, ai, aname = item
@@ -588,6 +606,11 @@ def replay(rec):
         if isinstance(r, dict):
             return C07.classify(r.get('stderr', '') or r.get('crash', ''))[1]
         return r
+    if k == 'discover':
+        r = vf.pmap(discover_one, [(rec['fn'], case)], nproc=1)[0]
+        if isinstance(r, dict):
+            return C07.classify(r.get('stderr', '') or r.get('crash', ''))[1]
+        return None
     if k == 'auth':
         r = vf.pmap(auth_case, [(rec['fn'], case, bytes.fromhex(rec['plain']), rec['field'], rec['bit'])], nproc=1)[0]
         if isinstance(r, dict):
